@@ -3,6 +3,7 @@ package cfgx
 import (
 	"regexp"
 	"sort"
+	"strconv"
 	"strings"
 	"sync"
 )
@@ -33,6 +34,10 @@ type Ref struct {
 	// Stopped counts groups that were stopped by an error; Aggregated counts
 	// errors collected by aggregating groups.
 	Stopped, Aggregated int
+	// Counts is the state of the counting probes of the installed instance of
+	// the configuration (probe id -> messages seen); shared by the caller
+	// across the evaluations of one installed instance, fresh for a fresh one.
+	Counts map[string]int
 }
 
 var (
@@ -153,7 +158,16 @@ func (r *Ref) Run(n *Node, k Kind) []string {
 	h := r.St.H(k)
 	switch n.Kind {
 	case KProbe, KProbeReq, KProbeRes:
-		h.Add(TraceHeader, n.Attr("id"))
+		stamp := n.Attr("id")
+		if n.Attr("count") != "" {
+			// a counting probe numbers the messages its instance has seen
+			if r.Counts == nil {
+				r.Counts = map[string]int{}
+			}
+			r.Counts[stamp]++
+			stamp += "#" + strconv.Itoa(r.Counts[n.Attr("id")])
+		}
+		h.Add(TraceHeader, stamp)
 		if n.ErrsOn(k) {
 			return []string{ProbeErrString(n.Attr("id"), k)}
 		}
